@@ -60,7 +60,7 @@ class C01Mgr(MgrBase):
 
     def gen(self, rng, tier):
         k = {"quick": 200, "thorough": 5000, "search": 1200}.get(tier, 200)
-        w = {"unchoke": 5, "choke": 2, "have": 1, "done": 10, "cancel": 1, "kill": 2, "join": 2, "bf": 1, "nint": 1, "tresp": 2, "accept": 2}
+        w = {"unchoke": 5, "choke": 2, "have": 1, "done": 10, "cancel": 1, "kill": 2, "join": 2, "bf": 1, "bfsparse": 3, "nint": 1, "tresp": 2, "accept": 2}
         cases = []
         for _ in range(k):
             n = rng.choice([1, 2, 2, 3, 4])
